@@ -18,7 +18,7 @@ CLAIMS: dict[str, tuple[str, str, str, str]] = {
         'presence kind as the row demands - whose arguments, expanded through local and self '
         'definitions and enclosing tests, read every fact a detecting check needs, attached to '
         'the element that owns the fact; the check family itself must route verdicts through '
-        'check_true -> add_error; counted loops must advance by a positive step. An element\'s own checks are not switched off by state carried over a manifest refresh (R18.10). Where the expectation is an equality (decode time, sequence number, offsets, availabilityStartTime across a refresh) a detecting check is two-sided (R18.12); the decode-time comparison is bounded by the tolerance chosen where the segment was created (R18.13).',
+        'check_true -> add_error; counted loops must advance by a positive step. An element\'s own checks are not switched off by state carried over a manifest refresh (R18.10). Where the expectation is an equality (decode time, sequence number, offsets, availabilityStartTime across a refresh) a detecting check is two-sided (R18.12); the decode-time comparison is bounded by the tolerance chosen where the segment was created (R18.13). Every S@t of a timeline sets the running start, tracked per element (R18.11).',
         'Not decided: absence of false positives on server output (needs the server values), '
         'sufficiency of each comparison, termination in general.',
         'DESIGN.md section 4, C18'),
@@ -46,7 +46,7 @@ CLAIMS: dict[str, tuple[str, str, str, str]] = {
         'and getvalue() except the guarded corruption hook; every path of generate_media_segment '
         'that inserts a box (emsg before moof, tfdt or PIFF into traf) reaches the reset of '
         'tfhd.base_data_offset / the forcing of trun.data_offset before encode (boolean flag '
-        'propagation over all paths); the edit API invalidates caches and propagates sizes. Every path to encode (edited or not) resets the tfhd base read from the stored file and forces the trun data_offset field, because the fragment is re-based and trun.post_encode can add the field only by growing the encoded box (R03.7). The saio offset is decided as a linear form per path (first senc entry minus the tfhd base, or minus the moof position); a reset saio is written with one entry unless there is no senc sample (R03.8); every path through Mp4Atom.__setattr__ that assigns a public field reaches trigger_change(), with or without a cached encoding (R03.9).',
+        'propagation over all paths); the edit API invalidates caches and propagates sizes. Every path to encode (edited or not) resets the tfhd base read from the stored file and forces the trun data_offset field, because the fragment is re-based and trun.post_encode can add the field only by growing the encoded box (R03.7). The saio offset is decided as a linear form per path (first senc entry minus the tfhd base, or minus the moof position); a reset saio is written with one entry unless there is no senc sample (R03.8); every path through Mp4Atom.__setattr__ that assigns a public field reaches trigger_change(), with or without a cached encoding (R03.9). The offset of a senc entry is its distance from the start of the senc box (R03.10, premise of the saio form).',
         'Not decided: byte identity of mdat, the numerical value of an offset for a given file. '
         'Trusted: the layout idiom table of the extractor (classes it cannot model are reported '
         'by name and the analysed count has a floor).',
@@ -62,7 +62,7 @@ CLAIMS: dict[str, tuple[str, str, str, str]] = {
         'edit API must invalidate cached encodings and propagate size deltas, and encode() must '
         'back-patch sizes before the post-encode fix-ups; the box header reader/writer must agree; '
         'FieldReader.read() results must not be used as values. This is the reader/writer '
-        'agreement that byte-exact round-tripping needs, decided for all inputs. Mp4Atom._invalidate is decided per path: leaving the cache alone implies `_encoded is None`, clearing without recursing implies no parent. The expandable descriptor size is read back as written for sizes on both sides of every seven-bit boundary (R04.9: partial evaluation of writer and reader loops over constants, no repository code runs); the raw header kept for a lazily loaded box holds every byte the header parser consumed (R04.10); every peek of a payload length is on a path that implies the length positive, as BufferedReader.peek asserts (R04.11).',
+        'agreement that byte-exact round-tripping needs, decided for all inputs. Mp4Atom._invalidate is decided per path: leaving the cache alone implies `_encoded is None`, clearing without recursing implies no parent. The expandable descriptor size is read back as written for sizes on both sides of every seven-bit boundary (R04.9: partial evaluation of writer and reader loops over constants, no repository code runs); the raw header kept for a lazily loaded box holds every byte the header parser consumed (R04.10); every peek of a payload length is on a path that implies the length positive, as BufferedReader.peek asserts (R04.11). A value a parser read is not replaced by a default (R04.12); bytes handed to a Binary field are stored whatever their content (R04.13).',
         'Not decided: equality of values (floats, dates), lazy vs eager field equality, the JSON '
         'round trip as a whole, bounded edit sequences. Guard linkages accepted: presence tests on '
         'the writer side (`x is not None`, `\'x\' in _fields`) against any reader-side condition.',
@@ -98,7 +98,7 @@ CLAIMS: dict[str, tuple[str, str, str, str]] = {
         'the ValueError the caller maps to 404; the static first/last range is startNumber .. '
         'startNumber + N - 1 on every path that implies a static mode; the indexer start clock is '
         'the tfdt or the previous end and the end is start + sample durations (linear evaluation of '
-        'one fragment); static number and file index differ by start_number - 1; the stored media duration is the sum of the fragment durations wherever it is computed (R06.12).',
+        'one fragment); static number and file index differ by start_number - 1; the stored media duration is the sum of the fragment durations wherever it is computed (R06.12). The sample durations and sizes the indexer sums are the ones in the file (R06.13, lift of C04 R04.12).',
         'Not decided: counts, gaplessness, tiling of ranges, decode times - arithmetic on stored data.',
         'DESIGN.md section 4, C06'),
     'C07': (
@@ -113,7 +113,7 @@ CLAIMS: dict[str, tuple[str, str, str, str]] = {
         'separators equal. Option reads reachable from the media entry points must carry a media '
         'usage; the resolved start/depth must be stored before the URL parameters are computed; '
         'both parameter generators must apply usage mask, exclude and default removal, and each '
-        'parameter set must reach the matching AdaptationSet type. OptionsContainer.clone shares no group container with its source (R07.6).',
+        'parameter set must reach the matching AdaptationSet type. OptionsContainer.clone shares no group container with its source (R07.6). Each piece of a split option text is decided from the piece (R07.5); the start option written into a URL is parsed back to the same instant and offset (R07.8, rules of C19).',
         'Not decided: identity of float formatting, values outside the enumerated type lattice, '
         'XML escaping of the query text (C05). Parser/formatter summaries recognise the idioms in '
         'use (constant-collection none tests, join/split, quote/unquote); an unrecognised formatter '
@@ -130,7 +130,7 @@ CLAIMS: dict[str, tuple[str, str, str, str]] = {
         'handlers parse options through the same restrictions/features; originalPublishTime is '
         'fromtimestamp(publish) and the manifest sets publish=int(publishTime.timestamp()) with a '
         'whole-second publishTime; every manifest advertising the patch feature also has '
-        'segmentTimeline, live mode and a patch template. availabilityStartTime stands still between a manifest and its patch (back-off confined to the start of the anchored unit). PatchLocation and Location are completed with their own parameter sets (R09.6).',
+        'segmentTimeline, live mode and a patch template. availabilityStartTime stands still between a manifest and its patch (back-off confined to the start of the anchored unit). PatchLocation and Location are completed with their own parameter sets (R09.6). calculate_segment_from_timecode hands on what get_segment_index found, unchanged (R09.7); the nearest-start search decides with the duration of the segment it steps over (R09.8).',
         'Not decided: that two manifests at T1 < T2 agree on shared segments, monotonic windows '
         '(histories/arithmetic).',
         'DESIGN.md section 4, C09'),
@@ -145,7 +145,7 @@ CLAIMS: dict[str, tuple[str, str, str, str]] = {
         'encode nothing themselves; each DRM system may hand out a moov/cenc/pro generator only '
         'under the membership test of the same-named DrmLocation (Marlin: none); cenc and moov '
         'share one generator; the fragment is the stored segment 0 loaded read-write and the key '
-        'set comes from the representation. pssh key ids are identity conversions of the key set, and a pssh without key ids is built only on paths that bound the number of keys by one (R10.7); default locations replace a requested set only for None unless nothing can empty a request.',
+        'set comes from the representation. pssh key ids are identity conversions of the key set, and a pssh without key ids is built only on paths that bound the number of keys by one (R10.7) every listed system is decided from its own item of the drm= text (R10.5);; default locations replace a requested set only for None unless nothing can empty a request.',
         'Not decided: byte identity of untouched boxes (follows from C04 as far as reader/writer '
         'agreement goes), pssh payload contents. Patterns are matched on resolved names (the '
         'receiver of load_fragment, the loop variable of the DrmContext), not on line positions.',
@@ -164,7 +164,7 @@ CLAIMS: dict[str, tuple[str, str, str, str]] = {
         'RFC 4122 bytes_le permutation; generate_content_key interpreted over terms must return '
         'key[i] = A[i]^A[i+16]^B[i]^B[i+16]^C[i]^C[i+16] with A, B, C the digests of (T|K), (T|K|T), '
         '(T|K|T|K), T = seed[:30], K = little-endian key id (agreement of the construction with the '
-        'published key-seed algorithm, not of key bytes). Default locations replace a requested set only for None unless nothing can empty a request (pair rule). The WRMHEADER default KID, key, CHECKSUM and the licence URL default_kid come from one key (R11.7).',
+        'published key-seed algorithm, not of key bytes). Default locations replace a requested set only for None unless nothing can empty a request (pair rule). The WRMHEADER default KID, key, CHECKSUM and the licence URL default_kid come from one key (R11.7). The requested systems and locations are what the drm= text says, item by item (R11.8, lift of C10 R10.5).',
         'Not decided (cryptographic value equality, out of reach of static analysis): computed key '
         'bytes, AES checksum values, PRO parse-back.',
         'DESIGN.md section 4, C11'),
@@ -176,7 +176,7 @@ CLAIMS: dict[str, tuple[str, str, str, str]] = {
         'exists and the caller maps ValueError to 404; no implementation of '
         'calculate_media_segment_index returns an Optional parameter unchanged as the number the '
         'caller asserts; VOD/live period starts are the running sum of durations with unique ids '
-        'per repetition. The index / pass-counter slice of the live listing loop is evaluated for 1..6 stored periods.',
+        'per repetition. The index / pass-counter slice of the live listing loop is evaluated for 1..6 stored periods. The nearest-start search decides with the duration of the segment it steps over (R12.7).',
         'Not decided: tiling of the time-shift window in live mode, source-offset mapping, decode '
         'times (arithmetic).',
         'DESIGN.md section 4, C12'),
@@ -187,7 +187,7 @@ CLAIMS: dict[str, tuple[str, str, str, str]] = {
         'unsatisfiability (start >= length or start > end) where it is 416; the Content-Range '
         'text must be built from the definitions of start/end that reach the return; both '
         'callers must map ValueError to 400, slice with an inclusive end, and nothing else may '
-        'read the Range header. For the suffix form the start is max(0, length - N) with N the parsed suffix length written out through the locals (structural clause, path conditions decide the sign where max() is not used). Decides the status/bounds/Content-Range clauses; body equality '
+        'read the Range header. For the suffix form the start is max(0, length - N) with N the parsed suffix length written out through the locals (structural clause, path conditions decide the sign where max() is not used). The length on-demand ranges are computed against is the size of the stored file, taken after its writer closed it (R13.6, typestate over every write-open). Decides the status/bounds/Content-Range clauses; body equality '
         'only structurally (same variables, inclusive convention).',
         "Axioms: pieces of split('-') parse to ints >= 0 or raise ValueError; length >= 0. "
         'Trusted: CPython ast; the zone closure. Not decided: equality of the body bytes.',
@@ -221,7 +221,7 @@ CLAIMS: dict[str, tuple[str, str, str, str]] = {
         'mismatch. A handler added or changed without the right decorator is a missing element of '
         'the enumeration, for every request at once. The whole submitted token is verified (no cut other '
         'than the salt prefix unless it keeps more than a genuine token has) and the HMAC input sequences of '
-        'issue and check agree per strict-origin value (term evaluation).',
+        'issue and check agree per strict-origin value (term evaluation). Records of used CSRF tokens are removed only once expired, or from outside the request paths (R15.7).',
         'May-reach over resolved call edges (unresolved dynamic calls are not followed); role data '
         'and browser cookie behaviour are run-time and not decided; jwt_required() alone is treated '
         'as anonymous because the guest identity is handed to every visitor. Policy table and the '
@@ -240,7 +240,7 @@ CLAIMS: dict[str, tuple[str, str, str, str]] = {
         'positive step; attributes read from library modules and annotated builtin containers must '
         'exist; int(x, base) on a known int is a definite TypeError; the synthetic-error selection '
         'is by equality, counted only on the addressed branch, and no other literal 5xx exists. Loops that '
-        'read until a sentinel end at end of input (R16.12). A payload is peeked at only where its length is positive (R16.16).',
+        'read until a sentinel end at end of input (R16.12). A payload is peeked at only where its length is positive (R16.16). What a rejecting membership test validated is the value that goes on (R16.17).',
         'Decides explicit error signals, loop progress and definite crashes on resolved edges; not '
         'the absence of implicit Python exceptions (KeyError, AttributeError on None ...), not '
         'response-time bounds. Signals raised inside the MP4 parser are decided at the parser call '
@@ -258,7 +258,7 @@ CLAIMS: dict[str, tuple[str, str, str, str]] = {
         'cleared or re-targeted where its media file is deleted; the columns the property calls '
         'names must carry a uniqueness constraint; replace-on-upload must delete row and file '
         'together. Referential consistency is decided as far as it is a property of schema + '
-        'deletion sites. Bulk DELETE statements only on models that own nothing and that nothing refers to (R17.8). A row that is replaced is looked up by the value its replacement is created with (R17.10), with nothing stored into that value in between.',
+        'deletion sites. Bulk DELETE statements only on models that own nothing and that nothing refers to (R17.8). A passive_deletes relationship over the association table counts as managing no rows while SQLite enforces no foreign keys (R17.1); a Blob row records the size of the file it names, measured after the file was closed (R17.11). A row that is replaced is looked up by the value its replacement is created with (R17.10), with nothing stored into that value in between.',
         'Not decided: interleavings of concurrent requests, 200/4xx behaviour of listed streams '
         'after a history, byte-exact serving of uploads. Trusted: SQLAlchemy cascade semantics as '
         'documented; typed-receiver resolution of the call graph.',
@@ -285,7 +285,7 @@ CLAIMS: dict[str, tuple[str, str, str, str]] = {
         'handed to the underlying reader contains the window offset, each tell() is translated '
         'back; every byte string returned by peek/read/readall is bounded by a count clamped to '
         'size - pos when the size is known; every exit of seek implies 0 <= pos <= size; cache '
-        'eviction/insertion keep the counter paired and bucket keys aligned; seek moves to offset / pos + offset / size + offset before clamping (R20.8); results are byte strings also at the end of the window (R20.9). These are necessary '
+        'eviction/insertion keep the counter paired and bucket keys aligned; seek moves to offset / pos + offset / size + offset before clamping (R20.8); results are byte strings also at the end of the window (R20.9). No name the window size goes by is tested by truthiness (R20.6). These are necessary '
         'conditions of slice-equivalence, not the equivalence itself.',
         'Axiom: a known window size is >= 0. Not decided: equality with BytesIO over operation '
         'sequences, LRU choice. Trusted: CPython ast.',
